@@ -389,3 +389,16 @@ B('C02.mpint-sign-octet-before-availability-check', ['C02'], [(P + 'common/parse
   "        if mpint_length > self.unparsed_length - 4:\n            raise NotEnoughData(bytes_needed=mpint_length + 4 - self.unparsed_length)\n\n        negative = (mpint_length and (six.indexbytes(self._parsable, self._parsed_length + 4) >= 0x80))\n",
   "        negative = (mpint_length and (six.indexbytes(self._parsable, self._parsed_length + 4) >= 0x80))\n\n        if mpint_length > self.unparsed_length - 4:\n            raise NotEnoughData(bytes_needed=mpint_length + 4 - self.unparsed_length)\n")], mention=['IndexError'])
 B('C08.name-without-root-label', ['C01', 'C08'], [(P + 'dnsrec/record.py', "            composer.compose_string(label, 'idna', 1)\n\n        composer.compose_numeric(0, 1)\n", "            composer.compose_string(label, 'idna', 1)\n")], mention=['codec'])
+# a decoded field that reaches no argument of the constructed object (keyword dictionary built from a name tuple that leaves one out)
+_SH_RET = ("        return TlsHandshakeServerHello(\n            protocol_version=parser['protocol_version'],\n            random=parser['random'],\n"
+           "            session_id=parser['session_id'],\n            compression_method=parser['compression_method'],\n"
+           "            cipher_suite=parser['cipher_suite'],\n"
+           "            extensions=parser['extensions'] if extension_parser else TlsExtensionsServer([]),\n        ), handshake_header_parser.parsed_length")
+B('C10.keyword-dict-leaves-field-out', ['C10', 'C01'], [(P + 'tls/subprotocol.py', _SH_RET,
+  "        params = {name: parser[name] for name in ('protocol_version', 'random', 'session_id', 'cipher_suite')}\n"
+  "        params['extensions'] = parser['extensions'] if extension_parser else TlsExtensionsServer([])\n"
+  "        return TlsHandshakeServerHello(**params), handshake_header_parser.parsed_length")], mention=['C10.R11', 'compression_method'])
+N('benign.keyword-dict-complete', [(P + 'tls/subprotocol.py', _SH_RET,
+  "        params = {name: parser[name] for name in ('protocol_version', 'random', 'session_id', 'cipher_suite', 'compression_method')}\n"
+  "        params['extensions'] = parser['extensions'] if extension_parser else TlsExtensionsServer([])\n"
+  "        return TlsHandshakeServerHello(**params), handshake_header_parser.parsed_length")])
